@@ -263,6 +263,25 @@ def directed(tier: str) -> list:
                      {"a": "evaluate", "listing_seed": 7,
                       "other_bounds": True},
                      {"a": "evaluate", "listing_seed": 8}]}]})
+    # a directory evaluated while runs claimed by a peer are still empty
+    # files (listed before or after completed logs, as the listing seeds say)
+    docs.append({"domain": "bp", "setups": ["bp:rls:binCount:1"],
+                 "instances": ["bp:beng01", "bp:asqas03"], "budget": 40,
+                 "boots": [
+        {"hashseed": "14", "clock": {"mode": "fixed", "tick": 1000},
+         "shuffle_seed": 11, "crash": None,
+         "actions": [{"a": "peer_claims", "frac": 0.5, "seed": 1},
+                     {"a": "run", "n_runs": [3], "warmup": False,
+                      "pre_warmup": False},
+                     {"a": "evaluate", "listing_seed": 1},
+                     {"a": "evaluate", "listing_seed": 2},
+                     {"a": "evaluate", "listing_seed": 3}]},
+        {"hashseed": "15", "clock": {"mode": "fixed", "tick": 1000},
+         "shuffle_seed": 12, "crash": None,
+         "actions": [{"a": "run", "n_runs": [3], "warmup": False,
+                      "pre_warmup": False},
+                     {"a": "peer_completes"},
+                     {"a": "evaluate", "listing_seed": 4}]}]})
     for dom, setups, insts, budget in (
             ("tsp", ["tsp:ea", "tsp:fea"], ["tsp:burma14", "tsp:gr17"], 100),
             ("ttp", ["ttp:rls", "ttp:rs"], ["ttp:circ4", "ttp:nl6"], 80),
@@ -1106,6 +1125,12 @@ def _run_scenario(doc, dom, budget, root, base, res, seeds_fn) -> None:
 
     # ---------------------------------------------------------------- runs without log files
     n_nolog = 0
+    if os.environ.get("VERIF_C12_DEBUG"):
+        with open(os.environ["VERIF_C12_DEBUG"], "w", encoding="utf-8") as fdbg:
+            for bi0, r0 in events:
+                fdbg.write(json.dumps([bi0, {k: (v if len(str(v)) < 300
+                                                 else str(v)[:300])
+                                             for k, v in r0.items()}]) + "\n")
     for bi, r in events:
         if r["e"] != "nolog_run":
             continue
